@@ -6,6 +6,7 @@ import (
 	"fmt"
 	"math/big"
 	"runtime"
+	"sort"
 	"strings"
 	"time"
 
@@ -456,6 +457,25 @@ func runC03(c *Ctx) {
 				return "-"
 			})
 			c.Direct(out == "-", "panic on a well-sealed request with an unusual inner plaintext", map[string]any{"inner": hx(pt), "request": hx(req), "panic": firstLines(lastPanic, 10)})
+		}
+	}
+	// correctly sealed type-3 requests whose request key is not a point, or whose signature halves sit on the range boundaries
+	{
+		cl := newT3Client(r)
+		cr := c07Crafted(w.env, cl, r, "origin.example")
+		var ks []string
+		for k := range cr {
+			ks = append(ks, k)
+		}
+		sort.Strings(ks)
+		for _, k := range ks {
+			req := cr[k]
+			out := c.Op("c03.probe type3.Issuer.Evaluate("+k+") "+hx(req), func() string {
+				w.env.issuer.Evaluate(req)
+				return "-"
+			})
+			c.Count("t3-crafted")
+			c.Direct(out == "-", "panic on a well-sealed type-3 request ("+k+")", map[string]any{"request": hx(req), "panic": firstLines(lastPanic, 10)})
 		}
 	}
 	// signature scalars on and around the range boundaries, on every curve and through every verifier a peer reaches
